@@ -554,6 +554,21 @@ def check(run):
         lines.append(f'{op} ' + fmt_pts(p3))
     run.run_cases('random-dyadic-sets', lines, impl, spec, tag=tag_line, spec_compare=ring_equal)
 
+    # 3b. the same structures at every scale: dyadic scaling about a (dyadic) anchor keeps every difference and cross
+    #     product exact, so metre-scale point sets (spacing ~1e-6 deg) must give the scaled hull (seeded change C10-m2)
+    lines = []
+    for i in range(run.scale(250, 8000)):
+        pts = rand_points(rng)
+        k = rng.choice([6, 10, 14, 18, 22])
+        sc = F(1, 2 ** k)
+        ax, ay = F(rng.randint(-170, 170)), F(rng.randint(-80, 80))
+        if k > 18:
+            ax, ay = ax / 16, ay / 16
+        moved = [(ax + x * sc, ay + y * sc) for x, y in pts]
+        op = 'hull.of' if i % 3 else 'hull.poly'
+        lines.append(f'{op} ' + fmt_pts(moved))
+    run.run_cases('scaled-and-translated', lines, impl, spec, tag=tag_line, spec_compare=ring_equal)
+
     # 4. the public wrappers
     lines = gen_wrappers(run, run.scale(1500, 30000))
     lines += ['hull.coll', 'hull.track']
